@@ -32,7 +32,7 @@ ENUM = {
     "quick": [("q_full", "full3"), ("q_bracket", "full3"), ("q_quoted", "full3"), ("q_coll", "full3"),
               ("q_class", "class3")],
     "thorough": [("t_full", "full3"), ("t_bracket", "full3"), ("t_quoted", "full3"), ("t_coll", "full3"),
-                 ("t_class", "class3"), ("t_long", "full4"), ("q_quoted", "full3")],
+                 ("t_class", "class3"), ("t_long", "full4"), ("t_quoted5", "full3"), ("q_quoted", "full3"), ("q_coll", "full3")],
 }
 SHELL = {"quick": "q_shell", "thorough": "t_shell"}
 RANDOM = {"quick": 40000, "thorough": 400000}
